@@ -266,7 +266,7 @@ func (f *frame) callFunc(fn *ssa.Function, bindings []*Val, args []*Val, res ssa
 		return f.callContract(fc, fn, args, pos)
 	}
 	if len(fn.Blocks) > 0 && (f.e.inModule(fn) || fn.Parent() != nil || f.inline[fn.Name()] ||
-		(fn.Synthetic != "" && (strings.HasSuffix(fn.Name(), "$bound") || strings.HasSuffix(fn.Name(), "$thunk")))) {
+		(fn.Synthetic != "" && (strings.HasSuffix(fn.Name(), "$bound") || strings.HasSuffix(fn.Name(), "$thunk") || strings.HasPrefix(fn.Synthetic, "wrapper for ")))) {
 		if f.depth >= 6 {
 			return nil, unsupported("inlining depth exceeded at %s", fn.Name())
 		}
